@@ -508,6 +508,42 @@ def success_instance(run, repo, net, form, label, owner, fn, mode, full, extras)
     return nruns[0]
 
 
+def scan_instance(run, repo, net, form, label, owner, fn, full):
+    """a pressure scan and a temperature scan at concrete conditions (numbers, so that a table keyed by a temperature
+    or a pressure alone is decidable): 500 K at 2 and 30 atm, 800 K at 2 and 30 atm on one object, then a second object
+    (species objects and feed of its own) at 500 K and 2 atm. No pair is asked twice of the same object, so every call
+    has to ask the solver, for the problem of that pair."""
+    I = Interp(repo)
+    eq, r0, names, sp, comps, model = build(I, repo, net, form)
+    if isinstance(r0, Raised):
+        return                      # reported by the other instance
+    cap, state = {}, {'outcome': OK_, 'n': 0}
+    I.native['scipy.optimize.minimize'] = solver(cap, state, len(net))
+    I.native['scipy.optimize.Bounds'] = bounds_object
+    eq2, r2, _, sp2, _, _ = build(I, repo, net, form, feed='feed2_', tag='#2')
+    plan = [(eq, sp, 'feed_', 500, 2, ''), (eq, sp, 'feed_', 500, 30, ', same temperature at another pressure'),
+            (eq, sp, 'feed_', 800, 2, ', first pressure at another temperature'),
+            (eq, sp, 'feed_', 800, 30, ', second temperature at the second pressure')]
+    if not isinstance(r2, Raised):
+        plan.append((eq2, sp2, 'feed2_', 500, 2, ', second object at the first conditions'))
+    ks = []
+    for obj, sp_, feed, t_, p_, how in plan:
+        T, P = C(t_), C(p_)
+        begin(cap)
+        res = I.call_method(obj, 'get_net_comp', [], {'T': T, 'P': P})
+        tag = ', scan at %d K and %d atm%s' % (t_, p_, how)
+        if isinstance(res, Raised):
+            run.fail('REF.result', 'Equilibrium.get_net_comp', 'result' + tag, '[%s] unexpected result %s'
+                     % (label + tag, show(res)), owner.module, fn)
+            continue
+        ks.append(verify(run, I, obj, cap, res, (names, sp_, comps, owner, fn), feed, T, P, label, tag,
+                         full and not how))
+    ks = [k for k in ks if k is not None]
+    run.check(all(same(k, ks[0]) for k in ks), 'DATAFLOW.solver-args', 'Equilibrium.get_net_comp',
+              label + ', scan pressure', 'the pressure in the objective is not the same multiple of P in every call of '
+              'the scan', owner.module, fn)
+
+
 def sequence_instance(run, repo, net, form, label, owner, fn, mode, nruns):
     """a call that asks the solver more than once (restart from another guess, coarse solve + polish): the runs of
     one call have outcomes of their own. Whatever the code does with them, a failure is to be signalled iff the run
@@ -619,18 +655,20 @@ def thermdat_instance(run, repo, nlabel, net, mode, full):
             run.fail('REF.constructor', con, label, '[%s] from_thermdat does not build the problem: %s'
                      % (label, show(eq, 120)), owner.module, fn)
             return
-        if len(reads) != n0 + 1:
+        if len(reads) == n0:
             run.fail('EFFECT.shared-state', con, '%s object, same file name' % nth if k == 1 else '%s object' % nth,
-                     '[%s] the thermdat reader is asked %d times for this object: the model is not the content of '
-                     'the file %r at the time of this call%s' % (
-                         label, len(reads) - n0, fname, ' - it was remembered from an earlier call under the name '
-                         'as given (another working directory, an edited file)' if len(reads) == n0 else ''),
-                     owner.module, fn)
+                     '[%s] the thermdat reader is not asked for this object: the model is not the content of the file '
+                     '%r at the time of this call, it was remembered from an earlier call under the name as given '
+                     '(another working directory, an edited file)' % (label, fname), owner.module, fn)
             continue
-        run.check(reads[-1][0] == fname, 'DATAFLOW.call-args', con, '%s object file name' % nth,
-                  '[%s] the reader is asked for %s' % (label, show(reads[-1][0], 80)), owner.module, fn,
+        run.check(all(rd[0] == fname for rd in reads[n0:]), 'DATAFLOW.call-args', con, '%s object file name' % nth,
+                  '[%s] the reader is asked for %s' % (label, show([rd[0] for rd in reads[n0:]], 80)), owner.module, fn,
                   sample='[%s] read_thermdat is asked for the file name handed in' % label)
-        objs.append((eq, feed, reads[-1][1], label))
+        # the read of this call whose species the object holds (the last one when it holds those of none)
+        held = pub(eq, 'model')
+        held = list(held.d.values()) if isinstance(held, DictV) else list(held.items) if isinstance(held, ListV) else []
+        mine = [rd for rd in reads[n0:] if any(h_ is o for h_ in held for o in rd[1].values())] or [reads[-1]]
+        objs.append((eq, feed, mine[-1][1], label))
     # asked after all of them were built, in another order than they were built
     for k, (eq, feed, sp, label) in enumerate(reversed(objs)):
         ctx = (names, sp, comps, gowner, gfn)
@@ -728,14 +766,16 @@ def check(run, repo):
         'multiple of P (the same in every call), and the Jacobian handed over (a callable - function, method, lambda, '
         'instance with __call__ - or the second member of the '
         'pair the objective returns with jac=True) is its exact gradient (symbolic differentiation, 2-5 species); (c) '
-        'the equality constraint (called with the args entry of its dictionary, like scipy does) is x.M - feed.M-totals '
-        'over the element matrix, its Jacobian is M transposed (the '
-        'derivative of the constraint); (d) the lower bound of every amount is a positive constant; (e) the returned '
+        'the equality constraints (called with the args entry of their dictionary, like scipy does; one dictionary or '
+        'one per element) are the element balances x.M - feed.M-totals '
+        'over the element matrix, one per element, their Jacobian is M transposed (the '
+        'derivative of the constraint); a constraint of any other type is refused (not judged); (d) the lower bound of every amount is a positive constant; (e) the returned '
         'amounts are the amounts of a run of this call as the solver handed them out (by value; what the caller does to '
         'the solver\'s array in place is not part of the reference) and the mole fractions are x / sum(x) of them. '
         '(b)-(e) are decided for the run that is handed out: in the first call, in a second call of the same object at '
         'other conditions, in a call at the first temperature and another pressure and one at the first pressure and '
-        'another temperature (a memo that lacks one of the two), in a call after a '
+        'another temperature (a memo that lacks one of the two; the same as a scan at concrete conditions, 500/800 K '
+        'and 2/30 atm, where a table keyed by one number is decidable), in a call after a '
         'failed call, for a second object that has species objects of its own under the same names and a feed of its '
         'own at the conditions of the '
         'first, and for the first object again after that (state shared between calls or objects: caches, flags, class '
@@ -747,7 +787,8 @@ def check(run, repo):
         'and with the permuted models. (g) Equilibrium.from_thermdat with the thermdat reader as an uninterpreted '
         'function that returns a fresh model per call: three objects (one file name twice, then another) each hold the '
         'model of their own read - the reader is asked once per object for the name handed in, the objective has the '
-        'Gibbs energies of that read - and a failing run on such an object is signalled. A '
+        'Gibbs energies of that read; the species of a read carry explicit zero counts like those of a real thermdat - '
+        'and a failing run on such an object is signalled. A '
         'warning counts as a signal only if no filter installed by the package (module level, an enclosing '
         'catch_warnings block, or a call made on the way) discards it.')
     run.assumptions = ['scipy.optimize.minimize is an uninterpreted solver; SLSQP behaviour is not modelled',
@@ -767,6 +808,10 @@ def check(run, repo):
     seen = {}
     nfail = 0
     nruns = 0
+    # concrete conditions first (numbers decide what symbols leave open: whether two temperatures are the same key)
+    for ic, ((nlabel, net), form) in enumerate(combos):
+        if thorough or (ic // len(MODEL_FORMS)) % len(MODEL_FORMS) == ic % len(MODEL_FORMS):
+            scan_instance(run, repo, net, form, '%s, %s' % (nlabel, form), owner, fn, thorough)
     for ic, ((nlabel, net), form) in enumerate(combos):
         label = '%s, %s' % (nlabel, form)
         # quick: every exit mode on one of the problems (each problem has at least one); thorough: all on all
